@@ -7,6 +7,7 @@ NODE = "src/allmydata/immutable/downloader/node.py"
 SHARE = "src/allmydata/immutable/downloader/share.py"
 FN = "src/allmydata/immutable/filenode.py"
 URI = "src/allmydata/uri.py"
+FINDER = "src/allmydata/immutable/downloader/finder.py"
 
 V1_OFFSETS = ("        offsets['plaintext_hash_tree'] = x # UNUSED\n"
               "        x += self._segment_hash_size\n"
@@ -158,7 +159,123 @@ MUTANTS = [
     M("benign-ctr-named-constant", FN,
       "        offset_big = offset // 16\n        offset_small = offset % 16\n",
       "        blk = 16\n        offset_small = offset % blk\n        offset_big = offset // blk\n", None),
+    # ---- C01.8 every CommonShare is authoritative once the UEB is known (DYHB answers vs UEB, any order)
+    M("late-commonshare-not-marked", FINDER,
+      "            numsegs, authoritative = self.node.get_num_segments()\n            cs = CommonShare(numsegs, self._si_prefix, shnum,\n"
+      "                             self._node_logparent)\n            if authoritative:\n                cs.set_authoritative_num_segments(numsegs)\n",
+      "            numsegs, _ = self.node.get_num_segments()\n            cs = CommonShare(numsegs, self._si_prefix, shnum,\n"
+      "                             self._node_logparent)\n", "C01.8", note="seeded C01-A"),
+    M("late-commonshare-mark-inverted", FINDER,
+      "            if authoritative:\n                cs.set_authoritative_num_segments(numsegs)\n",
+      "            if not authoritative:\n                cs.set_authoritative_num_segments(numsegs)\n", "C01.8"),
+    M("late-commonshare-marked-on-unrelated-condition", FINDER,
+      "            if authoritative:\n                cs.set_authoritative_num_segments(numsegs)\n",
+      "            if authoritative and self._hungry:\n                cs.set_authoritative_num_segments(numsegs)\n", "C01.8"),
+    M("commonshare-registered-only-when-known", FINDER,
+      "            if authoritative:\n                cs.set_authoritative_num_segments(numsegs)\n",
+      "            if authoritative:\n                cs.set_authoritative_num_segments(numsegs)\n                self._commonshares[shnum] = cs\n",
+      "C01.8", edits=[(FINDER, "            #     Yuck.\n            self._commonshares[shnum] = cs\n", "            #     Yuck.\n")]),
+    M("late-commonshare-marked-with-guess", FINDER,
+      "            if authoritative:\n                cs.set_authoritative_num_segments(numsegs)\n",
+      "            if authoritative:\n                cs.set_authoritative_num_segments(self.node.guessed_num_segments)\n", "C01.8"),
+    M("ueb-event-does-not-update-finder", NODE,
+      "        self._sharefinder.update_num_segments()\n", "", "C01.8"),
+    M("ueb-event-updates-before-parse", NODE,
+      "        self._parse_and_store_UEB(UEB_s) # sets self._stuff\n",
+      "        self._sharefinder.update_num_segments()\n        self._parse_and_store_UEB(UEB_s) # sets self._stuff\n", "C01.8",
+      edits=[(NODE, "        # instances, and will populate new ones with the correct value.\n        self._sharefinder.update_num_segments()\n",
+              "        # instances, and will populate new ones with the correct value.\n")]),
+    M("update-marks-only-rootless", FINDER,
+      "        for cs in self._commonshares.values():\n            cs.set_authoritative_num_segments(numsegs)\n",
+      "        for cs in self._commonshares.values():\n            if cs.need_block_hash_root():\n"
+      "                cs.set_authoritative_num_segments(numsegs)\n", "C01.8"),
+    M("update-marks-with-guess", FINDER,
+      "        for cs in self._commonshares.values():\n            cs.set_authoritative_num_segments(numsegs)\n",
+      "        for cs in self._commonshares.values():\n            cs.set_authoritative_num_segments(self.node.guessed_num_segments)\n",
+      "C01.8"),
+    M("flag-set-only-when-tree-rebuilt", SHARE,
+      "            self._block_hash_tree_leaves = numsegs\n        self._block_hash_tree_is_authoritative = True\n",
+      "            self._block_hash_tree_leaves = numsegs\n            self._block_hash_tree_is_authoritative = True\n", "C01.8"),
+    M("tree-only-grows", SHARE,
+      "        if self._block_hash_tree_leaves != numsegs:\n", "        if self._block_hash_tree_leaves < numsegs:\n", "C01.8"),
+    M("tree-rebuilt-leaves-stale", SHARE,
+      "            self._block_hash_tree = IncompleteHashTree(numsegs)\n            self._block_hash_tree_leaves = numsegs\n",
+      "            self._block_hash_tree = IncompleteHashTree(numsegs)\n", "C01.8"),
+    M("benign-authoritative-renamed", FINDER,
+      "            numsegs, authoritative = self.node.get_num_segments()\n            cs = CommonShare(numsegs, self._si_prefix, shnum,\n"
+      "                             self._node_logparent)\n            if authoritative:\n                cs.set_authoritative_num_segments(numsegs)\n",
+      "            n, known = self.node.get_num_segments()\n            cs = CommonShare(n, self._si_prefix, shnum,\n"
+      "                             self._node_logparent)\n            if not known:\n                pass\n            else:\n"
+      "                cs.set_authoritative_num_segments(n)\n", None),
+    M("benign-authoritative-by-index", FINDER,
+      "            numsegs, authoritative = self.node.get_num_segments()\n            cs = CommonShare(numsegs, self._si_prefix, shnum,\n"
+      "                             self._node_logparent)\n            if authoritative:\n                cs.set_authoritative_num_segments(numsegs)\n",
+      "            best = self.node.get_num_segments()\n            cs = CommonShare(best[0], self._si_prefix, shnum,\n"
+      "                             self._node_logparent)\n            self._commonshares[shnum] = cs\n            if best[1]:\n"
+      "                cs.set_authoritative_num_segments(best[0])\n", None),
+    M("benign-authoritative-by-have-ueb", FINDER,
+      "            if authoritative:\n                cs.set_authoritative_num_segments(numsegs)\n",
+      "            if self.node.have_UEB:\n                cs.set_authoritative_num_segments(self.node.num_segments)\n", None),
+    M("benign-register-then-update-all", FINDER,
+      "            if authoritative:\n                cs.set_authoritative_num_segments(numsegs)\n",
+      "            self._commonshares[shnum] = cs\n            if authoritative:\n                self.update_num_segments()\n", None),
+    M("benign-update-loop-items", FINDER,
+      "        for cs in self._commonshares.values():\n            cs.set_authoritative_num_segments(numsegs)\n",
+      "        for shnum, common in self._commonshares.items():\n            common.set_authoritative_num_segments(numsegs)\n", None),
+    M("benign-flag-set-first", SHARE,
+      "        if self._block_hash_tree_leaves != numsegs:\n            self._block_hash_tree = IncompleteHashTree(numsegs)\n"
+      "            self._block_hash_tree_leaves = numsegs\n        self._block_hash_tree_is_authoritative = True\n",
+      "        self._block_hash_tree_is_authoritative = True\n        if numsegs == self._block_hash_tree_leaves:\n            return\n"
+      "        self._block_hash_tree_leaves = numsegs\n        self._block_hash_tree = IncompleteHashTree(numsegs)\n", None),
+    M("benign-update-after-have-ueb-swapped", NODE,
+      "        self.have_UEB = True\n\n", "", None,
+      edits=[(NODE, "        # instances, and will populate new ones with the correct value.\n        self._sharefinder.update_num_segments()\n",
+              "        # instances, and will populate new ones with the correct value.\n        self._sharefinder.update_num_segments()\n"
+              "        self.have_UEB = True\n")]),
+    # ---- C01.9 nothing is submitted until every fetched piece has arrived (read answers in any order)
+    M("partial-block-hash-chain-submitted", SHARE,
+      "                block_hashes[hashnum] = hashdata\n            else:\n                return False # missing some hashes\n",
+      "                block_hashes[hashnum] = hashdata\n        if not block_hashes:\n            return False # the hashes have not arrived yet\n",
+      "C01.9", note="seeded C01-B"),
+    M("missing-block-hash-skipped", SHARE,
+      "                block_hashes[hashnum] = hashdata\n            else:\n                return False # missing some hashes\n",
+      "                block_hashes[hashnum] = hashdata\n            else:\n                continue # not here yet\n", "C01.9"),
+    M("partial-ciphertext-hash-chain-submitted", SHARE,
+      "            if hashdata:\n                hashes[hashnum] = hashdata\n            else:\n                return False # missing some hashes\n",
+      "            if hashdata is None:\n                continue\n            hashes[hashnum] = hashdata\n", "C01.9"),
+    M("block-hashes-submitted-one-by-one", SHARE,
+      "                block_hashes[hashnum] = hashdata\n            else:\n",
+      "                block_hashes[hashnum] = hashdata\n                self._commonshare.process_block_hashes({hashnum: hashdata})\n            else:\n",
+      "C01.9"),
+    M("ueb-body-not-awaited", SHARE,
+      "        if not UEB_s:\n            return False\n", "", "C01.9"),
+    M("offset-table-not-awaited", SHARE,
+      "        if table_s is None:\n            return False\n", "", "C01.9"),
+    M("missing-share-hashes-reported-satisfied", SHARE,
+      "        if not hashdata:\n            return False\n        share_hashes = {}\n",
+      "        if not hashdata:\n            return True\n        share_hashes = {}\n", "C01.9"),
+    M("missing-block-falls-through", SHARE,
+      "                    level=log.NOISY, parent=self._lp, umid=\"aK0RFw\")\n            return False\n",
+      "                    level=log.NOISY, parent=self._lp, umid=\"aK0RFw\")\n", "C01.9"),
+    M("benign-missing-flag", SHARE,
+      "        block_hashes = {}\n        for hashnum in needed_hashes:\n"
+      "            hashdata = self._received.get(o_bh+hashnum*HASH_SIZE, HASH_SIZE)\n            if hashdata:\n"
+      "                block_hashes[hashnum] = hashdata\n            else:\n                return False # missing some hashes\n",
+      "        block_hashes = {}\n        incomplete = False\n        for hashnum in needed_hashes:\n"
+      "            hd = self._received.get(o_bh+hashnum*HASH_SIZE, HASH_SIZE)\n            if hd is not None:\n"
+      "                block_hashes[hashnum] = hd\n            else:\n                incomplete = True\n"
+      "        if incomplete:\n            return False\n", None),
+    M("benign-missing-test-flipped", SHARE,
+      "            if hashdata:\n                hashes[hashnum] = hashdata\n            else:\n                return False # missing some hashes\n",
+      "            if not hashdata:\n                return False\n            hashes.update({hashnum: hashdata})\n", None),
+    M("benign-ueb-length-none-test", SHARE,
+      "        if not UEB_length_s:\n            return False\n", "        if UEB_length_s is None:\n            return False\n", None),
+    M("benign-block-missing-return-none", SHARE,
+      "                    level=log.NOISY, parent=self._lp, umid=\"aK0RFw\")\n            return False\n",
+      "                    level=log.NOISY, parent=self._lp, umid=\"aK0RFw\")\n            got = False\n            return got\n", None),
     # ---- vanished anchor
     M("vanish-calculate-sizes", NODE, "    def _calculate_sizes(self, segment_size):", "    def _calculate_sizesX(self, segment_size):",
       "ANALYSIS-ERROR"),
+    M("vanish-update-num-segments", FINDER, "    def update_num_segments(self):", "    def refresh_num_segments(self):", "ANALYSIS-ERROR",
+      edits=[(NODE, "        self._sharefinder.update_num_segments()\n", "        self._sharefinder.refresh_num_segments()\n")]),
 ]
